@@ -80,6 +80,9 @@ type Conn struct {
 	ioIdx atomic.Int64 // Read and Write may run concurrently, like on a socket
 	// MaxChunk limits how many bytes one Read returns (0 = everything available).
 	MaxChunk int
+	// EOFWithData: a Read that hands over the last bytes the peer wrote before it closed returns them together with io.EOF (io.Reader
+	// allows n > 0 with an error; in-memory transports and some TLS stacks do it)
+	EOFWithData bool
 }
 
 // Pipe returns the two ends (a: dialing side, b: accepting side).
@@ -121,7 +124,11 @@ func (c *Conn) Read(p []byte) (int, error) {
 			copy(p, c.self.buf[:n])
 			c.self.buf = c.self.buf[n:]
 			c.self.RdBytes += n
+			last := len(c.self.buf) == 0 && c.self.peerWr && c.EOFWithData
 			c.self.mu.Unlock()
+			if last {
+				return n, io.EOF
+			}
 			return n, nil
 		case c.self.peerWr:
 			c.self.mu.Unlock()
